@@ -377,7 +377,7 @@ def redelegate (del : Acct) (src dst : AVal) (d : Denom) (amt : Int) : M Unit :=
     let srcDl : Delegation := (getDelegation w del src.id d).getD default
     let dst ← match getDelegation w del dst.id d with
       | some _ => do let (_, v) ← claimDelegationRewards del dst d; pure v
-      | none => pure dst
+      | none => claimValidatorRewards dst
     let sharesToRemove ← liftE (validateDelegatedAmount srcDl.shares amt src.info a)
     let coinsToRedelegate ← liftE (delegationTokensWithShares sharesToRemove src.info a)
     if amt > coinsToRedelegate then throwE "insufficient_tokens"
@@ -435,6 +435,8 @@ def slashRedelegations (v : ValId) (fraction : Dec) : M Unit := do
     | none => throwE "other"
     | some r =>
       let dstVal ← getAllianceValidator r.dst
+      -- a destination position that is gone is skipped (checked before any reward is claimed)
+      if (getDelegation w r.del r.dst r.denom).isNone then return ()
       let (_, dstVal) ← claimDelegationRewards r.del dstVal r.denom
       let w ← getW
       match getDelegation w r.del r.dst r.denom with
@@ -444,24 +446,31 @@ def slashRedelegations (v : ValId) (fraction : Dec) : M Unit := do
         | none => return ()
         | some a =>
           let tokensToSlash := truncateInt (mulInt fraction r.amount)
-          let sharesToSlash ← liftE (validateDelegatedAmount dl.shares tokensToSlash dstVal.info a)
+          -- capped at what the position still holds
+          let sharesToSlash ← match validateDelegatedAmount dl.shares tokensToSlash dstVal.info a with
+            | .ok s => pure s
+            | .error (.err "insufficient_shares") => pure dl.shares
+            | .error e => liftE (.error e)
           let sc ← liftE (mkDecCoins a.denom sharesToSlash)
           let tds ← liftE (decCoinsSub dstVal.info.totalDelShares sc)
           setValidator { dstVal with info := { dstVal.info with totalDelShares := tds } }
           setDelegation { dl with shares := dl.shares - sharesToSlash }) idx
 
-/-- `slashUndelegations`: per index key the WHOLE bucket is loaded and every entry slashed -/
+/-- `slashUndelegations`: per index key (validator, completion, denom, delegator) the bucket is loaded and the
+    entries of that validator and denom are slashed; the slashed amount goes to the fee collector. -/
 def slashUndelegations (v : ValId) (fraction : Dec) : M Unit := do
   let w ← getW
   let idx := w.undelIndex.filter fun k => k.1 == v
   forEachM (fun (k : UndelIdxKey) => do
     let w ← getW
-    let (_, completion, _, del) := k
+    let (_, completion, d, del) := k
     if completion < w.time then return ()
     let bucket := (AL.get w.undelQueue (completion, del)).getD []
-    let bucket' := bucket.map fun e => { e with amount := e.amount - truncateInt (mulInt fraction e.amount) }
+    let hit (e : Undel) : Bool := e.val == v && e.denom == d
+    let cut (e : Undel) : Int := if hit e then truncateInt (mulInt fraction e.amount) else 0
+    let bucket' := bucket.map fun e => { e with amount := e.amount - cut e }
     forEachM (fun (e : Undel) =>
-      sendCoins accModule accFee (Coins.single e.denom (truncateInt (mulInt fraction e.amount)))) bucket
+      if hit e then sendCoins accModule accFee (Coins.single e.denom (cut e)) else pure ()) bucket
     modifyW fun w => { w with undelQueue := AL.set w.undelQueue (completion, del) bucket' }) idx
 
 /-- `SlashValidator` -/
